@@ -180,6 +180,45 @@ theorem container_flag_is_criteria (g : GoodCfg) (pstep thr : Rat) (cache : Bool
   rw [hflags, List.getElem?_map, hseg, ← isGood_spec]
   simp
 
+/-- A looser tolerance never rejects what a tighter one accepts: the acceptance test is monotone in
+    `phase_edge` (start bound up, end bound down).  A change that compares against the wrong bound, or
+    flips one of the inequalities, breaks this for some segment. -/
+theorem isGood_mono_edge (g g' : GoodCfg) (ph : List Rat)
+    (he : g.edge ≤ g'.edge) (hl : g'.endlo ≤ g.endlo) (ht : g.twopi ≤ g'.twopi)
+    (h : isGood g ph = true) : isGood g' ph = true := by
+  rw [isGood_spec] at h ⊢
+  obtain ⟨a, z, ha, hz, hp, h0, h1, h2, h3⟩ := h
+  exact ⟨a, z, ha, hz, hp, h0, Rat.le_trans h1 he, Rat.le_trans hl h2, Rat.le_trans h3 ht⟩
+
+/-- An empty segment is never a good cycle (the implementation raises on it; `isGoodChecks = none`). -/
+theorem isGood_nil (g : GoodCfg) : isGood g [] = false := by
+  simp [isGood, isGoodChecks]
+
+/-- A one-sample segment is good only if that single phase value lies in BOTH tolerance bands; when the
+    bands are disjoint (`edge < endlo`, i.e. `phase_edge < π` — every documented setting) no single sample
+    is ever a good cycle. -/
+theorem isGood_singleton (g : GoodCfg) (a : Rat) (hd : g.edge < g.endlo) : isGood g [a] = false := by
+  cases h : isGood g [a] with
+  | false => rfl
+  | true =>
+    rw [isGood_spec] at h
+    obtain ⟨a', z', ha, hz, -, -, h1, h2, -⟩ := h
+    simp only [List.head?_cons, Option.some.injEq, List.getLast?_singleton] at ha hz
+    subst ha; subst hz
+    grind
+
+/-- The criteria read only the segment: strict increase of ALL consecutive pairs.  A good segment of
+    length ≥ 2 starts strictly below where it ends. -/
+theorem isGood_head_lt_last (g : GoodCfg) (a b : Rat) (t : List Rat) (h : isGood g (a :: b :: t) = true) :
+    ∃ z, (a :: b :: t).getLast? = some z ∧ a < z := by
+  rw [isGood_spec] at h
+  obtain ⟨a', z, ha, hz, hp, -⟩ := h
+  refine ⟨z, hz, ?_⟩
+  have hmem : z ∈ b :: t := by
+    have : (b :: t).getLast? = some z := by simpa [List.getLast?_cons_cons] using hz
+    exact List.mem_of_getLast? this
+  exact (List.pairwise_cons.mp hp).1 z hmem
+
 /-! Non-vacuity -/
 example : isGood { edge := 1/4, twopi := 6, endlo := 23/4 } [1/8, 3, 47/8] = true := by
   rw [isGood_spec]; exact ⟨1/8, 47/8, rfl, rfl, by decide +kernel, by decide +kernel, by decide +kernel,
@@ -197,4 +236,5 @@ example : Container.isGoodFlags (Container.initOpts { edge := 1/4, twopi := 6, e
     [1/8, 3, 47/8, 1/8, 3, 47/8, 1/8, 3, 47/8]).1 = some [true, true, true] := by
   rw [(container_flag_independent_of_options _ _ _ _ _ _ _).2.1]; decide +kernel
 example : 2 ≤ (runsBy (wrapAt 4) [1/8, 3, 47/8, 1/8, 3, 47/8, 1/8, 3, 47/8]).length := by decide +kernel
+example : ({ edge := 1/4, twopi := 6, endlo := 23/4 } : GoodCfg).edge < ({ edge := 1/4, twopi := 6, endlo := 23/4 } : GoodCfg).endlo := by decide +kernel
 end C13
